@@ -131,3 +131,40 @@ Theorem C05_restart_position_is_newest_file : forall s f rest s',
   chk s' = scratch (fun p => if p =? lockpg s' then 0 else file_h s' p) (pageN s').
 Proof. exact open_checksum. Qed.
 Print Assumptions C05_restart_position_is_newest_file.
+
+(* ---- over the histories of C04_history ----
+   After EVERY (well-formed) history in the step language of Props/C04.v - transactions in both journal modes with spills,
+   rollbacks and failed finalisations, mode switches, checkpoints of every kind, earlier restarts, files from the stream
+   and forwarded ones, drops, imports - a restart that completes (Open on the files as the process left them: frames in
+   the log or not) is at exactly the position the node had: no acknowledged transaction is lost and none appears; the
+   position's checksum is the from-scratch checksum of the database file Open leaves (the log checkpointed into it), the
+   per-page cache is that file's, and the kept files still form one chain ending there - so the node commits and
+   replicates on from it (C09, C01). *)
+Require Import LF.Proofs.ChainProofs LF.Proofs.HistoryProofs LF.Proofs.SqlCheckpointProofs LF.Proofs.ComposeProofs LF.Proofs.RestartHistoryProofs.
+Theorem C05_history_restart_keeps_position : forall lock gs s v s',
+  1 <= lock -> wf_gsteps (init lock) gs -> run_gsteps (init lock) (fun _ => 0) gs = Some (s, v) ->
+  wf_restart s -> grun s GRestart = Some s' ->
+  txid s' = txid s /\ chk s' = chk s /\
+  chk s' = scratch (fun p => if p =? lock then 0 else file_h s' p) (pageN s') /\
+  (forall p, 1 <= p <= pageN s' -> p <> lock -> dbc s' p = file_h s' p) /\
+  Chain s'.
+Proof. exact g_history_restart_position. Qed.
+Print Assumptions C05_history_restart_keeps_position.
+
+(* Non-vacuity: the first four steps of Props/C04.v's example (create with a failed finalisation, restart, switch to WAL
+   mode, a WAL transaction that grows the database from 2 to 3 pages - its frames are only in the log), then the restart:
+   position 3 before and after, the log checkpointed (file 2 -> 3 pages, log empty) *)
+Example C05_history_restart_nonvacuous :
+  wf_gsteps (init 2097153) restart_example_history /\
+  match run_gsteps (init 2097153) (fun _ => 0) restart_example_history with
+  | Some (s, _) =>
+      wf_restart s /\
+      match grun s GRestart with
+      | Some s' => (wal_mode s, match wal_file s with [] => false | _ => true end, txid s, lenN (dbfile s),
+                    txid s', chk s' =? chk s, wal_file s', lenN (dbfile s'), pageN s')
+                   = (true, true, 3, 2, 3, true, [], 3, 3)
+      | None => False
+      end
+  | None => False
+  end.
+Proof. exact restart_history_example. Qed.
